@@ -13,6 +13,24 @@ CHECKS = {
         "Trusts scipy.stats.norm.logpdf and scipy.special.logsumexp as the reference; dimensions bounded (C<=8, F<=6).",
         "DESIGN.md section 4, C01",
     ),
+    "C02": (
+        "Hypothesis-generated data/splits vs reference responsibility-weighted moments; split-and-add metamorphic relation incl. exhaustive enumeration of all 2^(n-1) compositions for small n",
+        "Generated-input search: statistics of generated data equal independently computed weighted moments (NumPy and Dask input); any permutation+composition of the rows into blocks, added with + or +=, equals the whole; every composition is enumerated for n<=7 (quick) / n<=10 (thorough); operands are never mutated; incompatible shapes are refused without side effect.",
+        "Trusts the SciPy-based posterior reference; re-association tolerance 1e-10 relative.",
+        "DESIGN.md section 4, C02",
+    ),
+    "C03": (
+        "Hypothesis-generated trainings vs a reference EM trajectory: one-step M-step differential, monotonicity of an independently computed likelihood, predicted stop iteration",
+        "Generated-input search over data, initial models, all 8 update-switch combinations, floors, thresholds and caps (NumPy and Dask): one iteration equals the reference M-step; the SciPy-computed mean log-likelihood never decreases at floor-free steps; fit(threshold, cap) returns the model of exactly the predicted iteration on the reference trajectory.",
+        "Strictly positive floors; floor-active steps exempt from monotonicity; cases within 1e-6 of the threshold discarded and counted; iteration count is observed through the returned model (undecidable when neighbouring iterates coincide, counted as non-decisive).",
+        "DESIGN.md section 4, C03",
+    ),
+    "C05": (
+        "Hypothesis-generated priors/data/relevance vs reference Reynolds eqs. 11-13; limit and monotone-objective metamorphic checks; reference trajectory differential",
+        "Generated-input search: first MAP iteration equals the reference blend (incl. exactly-zero-evidence components and fixed ratios), weights renormalised, prior bit-for-bit untouched; r=1e12 returns the prior and r=1e-12 the ML estimate; means-only adaptation never decreases the relevance-penalised likelihood; K iterations follow the reference trajectory. Known finding KF-1 (variance blend) is recognised only by its exact wrong value.",
+        "KF-1 open: multi-iteration runs with update_variances are excluded by construction and counted; the variance limit r->0 is compared with ML only when means are updated too (the statement's explicit formula is authoritative otherwise).",
+        "DESIGN.md section 4, C05",
+    ),
 }
 
 NOT_YET = {}
